@@ -286,12 +286,33 @@ def bundled(chk, rng, thorough):
                 if fmt in ("Lx", "L") and not (plain_names and all(re.fullmatch(r"[A-Za-zµΩÅ°]*", ureg.get_symbol(k) or "") for k in d)):
                     continue            # LaTeX / siunitx macro names are letters only: other names and symbols are not checked there
                 ev = {"ev": "fmt", "fmt": fmt, "short": short, "units": units_pairs, "readable": rb is not None,
-                      "read": defreg.cont({k: F(v).limit_denominator(1000) for k, v in (rb or {}).items()}), "_text": text, "_unit": d}
+                      "read": defreg.cont({k: F(v).limit_denominator(1000) for k, v in (rb or {}).items()}), "_text": text, "_unit": d, "_rb": sorted(rb or {})}
                 events.append(ev)
                 chk.case(("bundled-fmt", repr(sorted(d.items())), spec))
+    usp, psp = defreg._cache["sp"][0], defreg._cache["sp"][1]
+
+    def readings(t):
+        """every reading of a token by the naming rule (exact spelling; prefix + unit [+ s]), from the reader's tables"""
+        out = set()
+        if t in usp:
+            out.add(("", usp[t]))
+        for p_ in psp:
+            if p_ and t.startswith(p_):
+                rest = t[len(p_):]
+                for r in (rest, rest[:-1] if rest.endswith("s") else None):
+                    if r and r in usp:
+                        out.add((psp[p_], usp[r]))
+        return out
+
     for e, clause in defreg.validate(chk, "Trace_Format", events, label="fmt"):
-        only_offset = all(reader_nonmult(k) for k in e["_unit"])
-        chk.diverge({"clause": clause, "fmt": e["fmt"], "short": e["short"], "src": "bundled"},
+        sig = {"clause": clause, "fmt": e["fmt"], "short": e["short"], "src": "bundled"}
+        # why: the symbol of a prefixed unit (prefix symbol + unit symbol) can have a second reading: it is, letter for letter, a defined
+        # spelling of another unit ('Pa' = peta-year and pascal) or another prefix + unit ('dat' = deca-ton and deci-technical-atmosphere).
+        # Established from the reader's tables, not from pint.
+        clash = sorted(t for t in e["_rb"] if len(readings(t)) > 1 and any(k not in usp for k in e["_unit"]))
+        if e["short"] and clash:
+            sig["cause"] = "prefixed-symbol-has-a-second-reading"
+        chk.diverge(sig,
                     {"unit": e["_unit"], "text": e["_text"], "read": [[i["s"], i["e"]] for i in e["read"]], "units": e["units"]})
     chk.samples.append({"bundled": {"unit": events[7]["_unit"], "fmt": events[7]["fmt"], "short": events[7]["short"], "text": events[7]["_text"]}})
 
